@@ -23,14 +23,21 @@ abbrev IdxMap := List (Nat × Nat)
 
 def mget (m : IdxMap) (k : Nat) : Option Nat := (m.find? (·.1 == k)).map (·.2)
 def mgetD (m : IdxMap) (k : Nat) : Nat := (mget m k).getD 0
+def mset (m : IdxMap) (k v : Nat) : IdxMap := m.map fun e => if e.1 == k then (k, v) else e
 def minsert (m : IdxMap) (k v : Nat) : IdxMap :=
-  if m.any (·.1 == k) then m.map fun e => if e.1 == k then (k, v) else e else m ++ [(k, v)]
+  if (mget m k).isSome then mset m k v else m ++ [(k, v)]
 
 /-- `entry(idx)` of a log without purged prefix: `log[i]` is the term of index `i+1`. -/
 def entryTerm (log : List Nat) (idx : Nat) : Option Nat :=
   if idx == 0 then none else log[idx - 1]?
 
-def sortDesc (l : List Nat) : List Nat := l.mergeSort fun a b => decide (b ≤ a)
+/-- insertion into a descending list -/
+def insDesc (a : Nat) : List Nat → List Nat
+  | [] => [a]
+  | b :: l => if b ≤ a then a :: b :: l else b :: insDesc a l
+
+/-- `sort_unstable_by(|a, b| b.cmp(a))` (any correct descending sort gives the same list) -/
+def sortDesc (l : List Nat) : List Nat := l.foldr insDesc []
 
 /-- `BufferedRaftLog::calculate_majority_matched_index(current_term, commit_index, peer_matched_ids)` -/
 def calcMajority (term commit : Nat) (ms : List Nat) (log : List Nat) : Option Nat :=
@@ -129,36 +136,34 @@ def newPromotions (s : Leader) : List Nat :=
       && ((find? s.view.nodes e.1).map (·.status)).getD sReadOnly == sPromotable
   ((ready.map (·.1)).filter fun id => !s.pending.contains id).mergeSort (· ≤ ·)
 
+/-- `check_learner_progress` as called from `handle_append_result` (throttle 0): only `pending` changes -/
+def learnerCheck (s : Leader) : Leader × List String :=
+  let hasLearner := s.matchIdx.any fun e => isLearnerTarget s.targets e.1
+  let np := if hasLearner then newPromotions s else []
+  if np.isEmpty then (s, []) else ({ s with pending := s.pending ++ np }, ["PR"])
+
+/-- the part of `handle_append_result` after the response was turned into a `PeerUpdate` -/
+def afterUpdate (s : Leader) (peer : Nat) (u : PeerUpdate) : Leader × List String × String :=
+  let isVoter := isVoterTarget s.targets peer
+  let s1 := updatePeerIndex s peer u
+  let r2 := if !isVoter then learnerCheck s1 else (s1, [])
+  if u.success && isVoter then
+    match calcNewCommit r2.1 with
+    | some n => ({ r2.1 with commit := n }, r2.2 ++ [s!"N{n}"], "ack:voter-commit")
+    | none => (r2.1, r2.2, "ack:voter-nocommit")
+  else (r2.1, r2.2, if u.success then "ack:nonvoter-success" else if isVoter then "ack:voter-conflict" else "ack:nonvoter-conflict")
+
 /-- `handle_append_result`; returns new state, events, branch tag. -/
 def handleAppendResult (s : Leader) (peer respTerm : Nat) (r : AckResult) : Leader × List String × String :=
   if respTerm < s.term then (s, [], "ack:stale-term")
   else if respTerm > s.term then ({ s with term := respTerm }, ["BF", "!higher-term"], "ack:higher-term")
-  else
-    let isVoter := isVoterTarget s.targets peer
-    let upd? : Option PeerUpdate × Option (Leader × List String × String) := match r with
-      | .success m => (some { matchIndex := some m, nextIndex := m + 1, success := true }, none)
-      | .conflict ct ci =>
-        (some { matchIndex := none, nextIndex := conflictNext s.log ct ci ((mget s.nextIdx peer).getD 1), success := false }, none)
-      | .higherTerm t =>
-        if t > s.term then (none, some ({ s with term := t }, ["BF", "!higher-term"], "ack:embedded-higher-term"))
-        else (none, some (s, [], "ack:embedded-term-ignored"))
-    match upd? with
-    | (none, some out) => out
-    | (none, none) => (s, [], "ack:none")
-    | (some u, _) =>
-      let s1 := updatePeerIndex s peer u
-      -- learner progress check
-      let (s2, ev2) :=
-        if !isVoter then
-          let hasLearner := s1.matchIdx.any fun e => isLearnerTarget s1.targets e.1
-          let np := if hasLearner then newPromotions s1 else []
-          if np.isEmpty then (s1, []) else ({ s1 with pending := s1.pending ++ np }, ["PR"])
-        else (s1, [])
-      if u.success && isVoter then
-        match calcNewCommit s2 with
-        | some n => ({ s2 with commit := n }, ev2 ++ [s!"N{n}"], "ack:voter-commit")
-        | none => (s2, ev2, "ack:voter-nocommit")
-      else (s2, ev2, if u.success then "ack:nonvoter-success" else if isVoter then "ack:voter-conflict" else "ack:nonvoter-conflict")
+  else match r with
+    | .success m => afterUpdate s peer { matchIndex := some m, nextIndex := m + 1, success := true }
+    | .conflict ct ci =>
+      afterUpdate s peer { matchIndex := none, nextIndex := conflictNext s.log ct ci ((mget s.nextIdx peer).getD 1), success := false }
+    | .higherTerm t =>
+      if t > s.term then ({ s with term := t }, ["BF", "!higher-term"], "ack:embedded-higher-term")
+      else (s, [], "ack:embedded-term-ignored")
 
 /-- `handle_log_flushed`. `none` = the `debug_assert!(last >= durable)` fires (panic). -/
 def handleLogFlushed (s : Leader) (durable : Nat) : Option (Leader × List String × String) :=
